@@ -103,6 +103,18 @@ theorem invoke_spec_direct (eqv : Val → Val → Bool) (sig : Sig) (cfg : Confi
   obtain ⟨w, hb, hi⟩ := build_inv sig cfg (wf_of_full sig cfg h hk)
   exact ⟨w, hb, fun recv xs => invoke_inv eqv sig cfg w hi _ xs (normalize_encodeG true sig recv xs)⟩
 
+/-- `f(1)` compiled, on `f(a int, xs ...int)` stubbed with `Return(0).When(1).Return(5)`: the callback receives
+    `[1, nil-slice]` and the condition still matches; with a tail it does not -/
+example : (match build { nIn := 2, variadic := true, isMethod := false, numOut := 1 } [.ret 1 0, .when (some [.val 1]), .ret 1 5] with
+    | .ok w => [encodeCallDirect w.sig 0 [1] = [Arg.one 1, Arg.nilPack],
+                (w.invoke (· == ·) (encodeCallDirect w.sig 0 [1])).map Prod.fst = .ok (.ret 5),
+                (w.invoke (· == ·) (encodeCallDirect w.sig 0 [1, 1])).map Prod.fst = .ok (.ret 0)]
+    | .error _ => []) = [True, True, True] := by
+  simp [build, first, createWhen, newAlwaysMatch, W.alloc, W.steps, W.step, W.when, newDefaultMatch, toExprOk,
+    tupleResolves, Spec.resolves, W.ret, W.get, W.set, Matcher.addResult, bind, Except.bind, pure, Except.pure,
+    encodeCallDirect, encodeCallG, W.invoke, W.scan, Matcher.matchArgs, normalize, ones, evalTuple, Spec.eval,
+    Matcher.result, Except.map]
+
 /-- **Histories.** The `When` is live: after the configuration is built, registrations of further conditions and
     calls (through reflect or compiled call sites, any receiver, any arguments) may alternate arbitrarily; every
     registration is accepted and every call answers by exactly the conditions registered *before that call*, first
